@@ -626,6 +626,43 @@ def r26l(F):
             [(b, t, "visited-insert") for b, t in fn.calls() if callee(t).endswith("BTreeSet::insert")] + \
             [(b, t, "load") for b, t in fn.calls() if callee(t).endswith("Environment::get_ops_for_path")]
     need(len(sites) >= 3, "link_ops: visited set / load not found")
+    # every link is followed: the only reason to skip one is link_ops' own visited set.  Skipping what some shared cache already
+    # holds (the op cache: "its imports were followed when it was loaded") is wrong when that earlier walk was abandoned on one of
+    # the file's imports - the file then builds or fails depending on what was built before it
+    loops = cfg.natural_loops(fn)
+    loads = [b for b, t, w in sites if w == "load"]
+    skippers = []
+    in_loop = lambda b_: any(b_ in body for body in loops.values())
+    for cb, ct in fn.calls():
+        c = callee(ct)
+        shared = c.startswith("ucglib::build::opcode::cache::") or \
+            (c.startswith("ucglib::build::opcode::environment::Environment::") and not c.endswith("::get_ops_for_path"))
+        if not shared or not in_loop(cb) or ct["dest"]["p"]:
+            continue
+        # a question put to state that all files of the invocation share: does an edge of its answer avoid the load?
+        for sb, ft, tt in util.bool_switches(fn, ct["dest"]["l"]):
+            for e in (ft, tt):
+                if loads and in_loop(sb) and not (cfg.reachable(fn, e, removed=set(loops)) & set(loads)):
+                    skippers.append(sb)
+        for sb, st in util.enum_switches(fn, ct["dest"]["l"]):
+            for e in cfg.term_succs(st):
+                if loads and in_loop(sb) and not (cfg.reachable(fn, e, removed=set(loops)) & set(loads)):
+                    skippers.append(sb)
+    # ... or combined with the visited test (`found.contains(..) || cache.contains(..)`): the cache's answer feeds the same switch
+    for cb, ct in fn.calls():
+        c = callee(ct)
+        if (c.startswith("ucglib::build::opcode::cache::") or (c.startswith("ucglib::build::opcode::environment::Environment::") and
+                                                                not c.endswith("::get_ops_for_path"))) and in_loop(cb):
+            for b in range(len(fn.blocks)):
+                t0 = fn.term(b)
+                if t0["k"] == "switch" and t0.get("ty") == "bool" and in_loop(b) and not fn.is_cleanup(b) and cfg.reaches(fn, cb, b, removed=set(loops)) and \
+                        ("call", c, cb) in o.at(t0["on"], b):
+                    if loads and any(not (cfg.reachable(fn, e, removed=set(loops)) & set(loads)) for e in cfg.term_succs(t0)):
+                        skippers.append(b)
+    r.inst("link_ops:skips-only-visited", fn.where(skippers[0]) if skippers else fn.where(), not skippers,
+           "a link is skipped only when this walk has seen it" if not skippers else
+           "link_ops skips a link because a cache shared by all files of the invocation already holds it: whether the file's own imports "
+           "are loaded (and their type errors reported) depends on which files were built before")
     for b, t, what in sites:
         labs = o.at(t["args"][1], b)
         ok = "ucglib::path::normalize" in calls_in(labs)
